@@ -358,7 +358,29 @@ func runProtoCase(t *testing.T, out *bufio.Writer, r *rand.Rand, k int, n int, e
 		for ph := 0; ph < phases; ph++ {
 			nf := 1 + r.Intn(3)
 			for q := 0; q < nf; q++ {
-				switch r.Intn(5) {
+				switch r.Intn(6) {
+				case 5: // a link goes away while an advertisement of the peer is being processed, and the dead
+					// sweep wins the router lock: advertDataHandler has stored the advertisement and started
+					// `go dv.ribUpdate(ns)`; checkDeadNeighbors removes the neighbour first; the goroutine runs late
+					if len(edges) > 0 {
+						e := edges[r.Intn(len(edges))]
+						i, j := e[0], e[1]
+						if r.Intn(2) == 0 {
+							i, j = j, i
+						}
+						if p.rt[i] != nil && p.rt[j] != nil && p.net.linked(i, j) {
+							adv := p.advertOf(j)
+							p.net.mu.Lock()
+							delete(p.net.link, lkey(i, j))
+							p.net.mu.Unlock()
+							if ns := p.rt[i].Vf18StoreAdvert(p.names[j], adv); ns != nil {
+								ns.Vf18SetLastSeen(time.Time{})
+								p.rt[i].Vf18CheckDead()
+								p.net.count("late-update")
+								go p.rt[i].Vf18RibUpdateNs(ns)
+							}
+						}
+					}
 				case 0, 1: // a link goes away
 					if len(edges) > 0 {
 						e := edges[r.Intn(len(edges))]
